@@ -303,7 +303,11 @@ fn trees_mode(rng: &mut Rng, n: usize, thorough: bool) {
     emit(json!({"kind": "root1d", "root": root, "cls": cls, "s": fx(s), "e": fx(e), "n": len, "seq": fxs(&seq), "mode": "random"}));
     for j in 0..3 {
       let depth = 6 + rng.below(8);
-      let t = if j == 2 { rayon_like(len, 16 << rng.below(4)) } else { random_tree(rng, len, depth, 1, j == 1) };
+      // a bare Leaf says nothing about splitting: redraw until the root is a node
+      let mut t = if j == 2 { rayon_like(len, 16 << rng.below(4)) } else { random_tree(rng, len, depth, 1, j == 1) };
+      while matches!(t, Tree::Leaf) && len >= 2 {
+        t = random_tree(rng, len, depth, 1, j == 1);
+      }
       emit_tree1d(root, s, e, len, &t, j == 1, j == 0);
     }
     root += 1;
@@ -379,7 +383,10 @@ fn trees_mode(rng: &mut Rng, n: usize, thorough: bool) {
     emit(json!({"kind": "root2d", "root": root, "x0": fx(x0), "x1": fx(x1), "nx": nx, "y0": fx(y0), "y1": fx(y1), "ny": ny, "seq": Value::Null, "seq_len": seq.len(), "mode": "random"}));
     for j in 0..3 {
       let depth = 6 + rng.below(8);
-      let t = if j == 2 { rayon_like(nx * ny, 16 << rng.below(4)) } else { random_tree(rng, nx * ny, depth, if j == 1 { 0 } else { 1 }, j == 1) };
+      let mut t = if j == 2 { rayon_like(nx * ny, 16 << rng.below(4)) } else { random_tree(rng, nx * ny, depth, if j == 1 { 0 } else { 1 }, j == 1) };
+      while matches!(t, Tree::Leaf) && nx * ny >= 2 {
+        t = random_tree(rng, nx * ny, depth, if j == 1 { 0 } else { 1 }, j == 1);
+      }
       emit_tree2d(root, x, y, &t, j == 1, true, &seq, false);
     }
     root += 1;
@@ -389,6 +396,17 @@ fn trees_mode(rng: &mut Rng, n: usize, thorough: bool) {
   {
     let r1 = guarded(|| rayon::ThreadPoolBuilder::new().num_threads(1).build().unwrap().install(|| Steps(0., 4., 5).into_par_iter().enumerate().rev().collect::<Vec<(usize, f64)>>()));
     let r2 = guarded(|| rayon::ThreadPoolBuilder::new().num_threads(1).build().unwrap().install(|| Steps2D((0., 1., 2), (0., 1., 2)).into_par_iter().enumerate().rev().collect::<Vec<(usize, (f64, f64))>>()));
+    // the contract itself: len() after partial consumption vs the number of items that remain
+    let mut it = Steps(0., 4., 5).into_iter();
+    it.next_back();
+    it.next();
+    let len_after = it.len();
+    let remaining = it.count();
+    let mut it2 = Steps2D((0., 1., 2), (0., 1., 2)).into_iter();
+    it2.next_back();
+    let len2_after = it2.len();
+    let remaining2 = it2.count();
+    emit(json!({"kind": "len_after_consumption", "one_d": [len_after, remaining], "two_d": [len2_after, remaining2]}));
     emit(json!({"kind": "enum_rev", "one_d": r1.as_ref().ok().map(|v| v.iter().map(|p| json!([p.0, p.1])).collect::<Vec<_>>()), "one_d_panic": r1.err(),
       "two_d": r2.as_ref().ok().map(|v| v.iter().map(|p| json!([p.0, p.1 .0, p.1 .1])).collect::<Vec<_>>()), "two_d_panic": r2.err()}));
   }
